@@ -141,7 +141,7 @@ def run(ck):
     # disabled text produces neither declarations nor diagnostics
     rng = ck.rng
     progs = []
-    for _ in range(150 if quick else 3000):
+    for _ in range(150 if quick else 30000):
         depth = rng.choice([2, 3, 4, 5])
         seq = []
 
